@@ -74,6 +74,26 @@ def showC7n : Option Nat → String
   | none => "N"
   | some f => toString f
 
+/-- one tag lookup (`key` / `marked_key`) -/
+def lookup (op tags k : String) : String :=
+  match parseTags tags, parseStr k with
+  | some tags, some k =>
+      if op == "key" then
+        PyM.show (fun | none => "null" | some v => "val " ++ showStr v) (key tags k)
+      else if op == "mkey" then
+        PyM.show (fun | none => "null"
+                      | some (m, a, d) => "map " ++ showStr m ++ " " ++ showStr a ++ " " ++ showStr d)
+          (markedKey tags k)
+      else "bad-op"
+  | _, _ => "bad-op"
+
+/-- a stream of lookups `op tags k op tags k …` on tag lists that come and go: the helpers are functions of their
+    arguments, so the answers are those of the single lookups, whatever was looked up before -/
+def lookupSeq : List String → Option (List String)
+  | [] => some []
+  | op :: tags :: k :: rest => do let outs ← lookupSeq rest; pure (lookup op tags k :: outs)
+  | _ => none
+
 def handle : Handler
   | ["isect", l, r] => match parseElems l, parseElems r with
       | some l, some r => PyM.show showB (intersectE l r) | _, _ => "bad-op"
@@ -96,15 +116,11 @@ def handle : Handler
           | "ge" => showB (vge a b) | "eq" => showB (veq a b) | "ne" => showB (vne a b)
           | _ => "bad-op")
       | _, _ => "bad-op"
-  | ["key", tags, k] => match parseTags tags, parseStr k with
-      | some tags, some k => PyM.show (fun | none => "null" | some v => "val " ++ showStr v) (key tags k)
-      | _, _ => "bad-op"
-  | ["mkey", tags, k] => match parseTags tags, parseStr k with
-      | some tags, some k =>
-          PyM.show (fun | none => "null"
-                        | some (m, a, d) => "map " ++ showStr m ++ " " ++ showStr a ++ " " ++ showStr d)
-            (markedKey tags k)
-      | _, _ => "bad-op"
+  | ["key", tags, k] => lookup "key" tags k
+  | ["mkey", tags, k] => lookup "mkey" tags k
+  | "kseq" :: rest => match lookupSeq rest with
+      | some outs => " ; ".intercalate outs
+      | none => "bad-op"
   | ["arn", a, f] => match parseStr a, parseStr f with
       | some a, some f => PyM.show showStr (arnSplit a f) | _, _ => "bad-op"
   | "hist" :: n :: rest => match n.toNat? with
